@@ -18,7 +18,11 @@ fn strip_nulls(v: &Value) -> Value {
 /// independent reading of delivered bytes: optional anti-XSSI prefix, then JSON
 fn read_body(body: &[u8]) -> Option<Value> {
     let b = body.strip_prefix(b")]}'\n").unwrap_or(body);
-    serde_json::from_slice(b).ok()
+    // A string the parser skips (a member the protocol does not define) is not checked for valid
+    // UTF-8 by it; the independent reading therefore falls back to a lossy decoding. A string the
+    // parser does read is checked, so a document accepted with such bytes differs from this
+    // reading only inside skipped members, which the comparison ignores anyway.
+    serde_json::from_slice(b).ok().or_else(|| serde_json::from_str(&String::from_utf8_lossy(b)).ok())
 }
 
 pub fn monitor(out: &RunOut) -> MonOut {
